@@ -67,6 +67,10 @@ def configs(tier):
     }
     out.append(dict(mode="Diffuse", spectrum="power", cloud="none", optical=True, radio=True, n=60, extra=zeros, tag="zeros"))
     out.append(dict(mode="Target", spectrum="power", cloud="mono", optical=True, radio=True, n=60, extra=zeros, tag="zeros"))
+    # runs in which no trajectory survives: the (empty) table still describes the configuration that produced it
+    never = {"title": "never visible", "detector": {"name": "polar", "initial_position": {"latitude": 1.3962634015954636, "altitude": 33.0}}, "simulation": {"target": {"source_DEC": 1.3962634015954636}}}
+    out.append(dict(mode="Target", spectrum="power", cloud="mono", optical=True, radio=True, n=64, extra=never, tag="zero_rows"))
+    out.append(dict(mode="Diffuse", spectrum="mono", cloud="none", optical=True, radio=False, n=0, extra={"title": "nothing thrown"}, tag="zero_rows"))
     if tier == "thorough":
         for alt, seed in itertools.product((33.0, 2000.0), (1, 2)):
             out.append(dict(mode="Diffuse", spectrum="power", cloud="mono", optical=True, radio=True, n=60, altitude=alt, extra=None, tag=f"alt{alt}", seed=seed))
